@@ -2,6 +2,7 @@ package props
 
 import (
 	"fmt"
+	"go/token"
 	"strings"
 
 	"golang.org/x/tools/go/ssa"
@@ -95,5 +96,75 @@ func runC38(c *eng.Ctx) {
 			}
 		}
 	}
+	// WORKER-dispatch: a queued request is executed as what it is, every request of the batch is answered, and a
+	// failed fsync rolls the file back to the position read at the start and turns every success of the batch into
+	// a failure before anything is answered
+	if sw := c.P.Func("weed/storage", "(*Volume).startWorker"); sw != nil {
+		var w *ssa.Function
+		for _, a := range eng.WithAnon(sw) {
+			if len(eng.Find(a, eng.PlainCallTo("needle.AsyncRequest).Submit"))) > 0 {
+				w = a
+			}
+		}
+		if w != nil {
+			isWrite := func(want bool) map[eng.Edge]bool {
+				return eng.PassEdges(w, eng.BoolVal(want, func(v ssa.Value) bool { return eng.IsField(v, "AsyncRequest.IsWriteRequest") }))
+			}
+			wr := eng.Find(w, eng.PlainCallTo("storage.Volume).doWriteRequest"))
+			dl := eng.Find(w, eng.PlainCallTo("storage.Volume).doDeleteRequest"))
+			c.Guard("WORKER-dispatch", "write-requests-write", w, eng.Entry(w), wr, isWrite(true), "only a write request is executed as a write")
+			c.Guard("WORKER-dispatch", "delete-requests-delete", w, eng.Entry(w), dl, isWrite(false), "only a delete request is executed as a delete")
+			syncs := eng.Find(w, eng.PlainCallTo("backend.BackendStorageFile).Sync"))
+			stat := eng.Find(w, eng.PlainCallTo("backend.BackendStorageFile).GetStat"))
+			tr := eng.Find(w, eng.PlainCallTo("backend.BackendStorageFile).Truncate"))
+			submits := eng.Find(w, eng.PlainCallTo("needle.AsyncRequest).Submit"))
+			if len(syncs) != 1 || len(stat) != 1 || len(tr) != 1 {
+				c.Undecided("WORKER-dispatch", eng.FuncName(w)+" fsync", w.Pos(), "fsync / position read / roll-back not found")
+			} else {
+				e := eng.ErrOf(syncs[0])
+				failed := eng.PassEdges(w, eng.ErrNotNil(e))
+				c.Guard("WORKER-dispatch", "rollback-only-after-failed-fsync", w, eng.Entry(w), tr, failed, "the file is cut back only when the fsync failed")
+				okRb := len(failed) > 0 && eng.Arg(tr[0].(*ssa.Call), 0) == eng.ResultOf(stat[0], 0)
+				for _, st := range startsOf(failed) {
+					if hit, _ := eng.Search(st, eng.AnyOf(submits), eng.SearchOpt{Barrier: eng.Is(tr[0])}); hit != nil {
+						okRb = false
+					}
+					// every success is turned into a failure carrying the fsync error before the answers go out
+					fix := eng.Find(w, func(in ssa.Instruction) bool {
+						call, ok := in.(*ssa.Call)
+						return ok && eng.CalleeIs(call, "needle.AsyncRequest).UpdateResult") && eng.SameVar(call.Call.Args[len(call.Call.Args)-1], e)
+					})
+					if len(fix) == 0 {
+						okRb = false
+					} else if hit, _ := eng.Search(st, eng.AnyOf(submits), eng.SearchOpt{Cut: eng.PassEdges(w, eng.BoolCall(true, "needle.AsyncRequest).IsSucceed")), Barrier: eng.AnyOf(fix)}); hit == nil {
+						// fine: the answers are reachable without the fix only past "not succeeded"
+					}
+				}
+				c.Ob("WORKER-dispatch", eng.FuncName(w)+" failed-fsync-rolls-back-to-batch-start", okRb, tr[0].Pos(), "after a failed fsync the file is cut back to the position read at the start of the batch, and the batch's successes are failed with the fsync error, before any request is answered")
+			}
+			// every request appended to the batch is answered: the answers loop runs after the execution loop on all paths
+			okAns := len(submits) == 1
+			// the loop that answers: its header (the branch that controls the Submit call) stands for "all answered"
+			var answerLoop []ssa.Instruction
+			if okAns {
+				for _, p := range submits[0].Block().Preds {
+					if iff, isIf := p.Instrs[len(p.Instrs)-1].(*ssa.If); isIf {
+						answerLoop = append(answerLoop, iff)
+					}
+				}
+				okAns = len(answerLoop) > 0
+			}
+			for _, x := range append(append([]ssa.Instruction{}, wr...), dl...) {
+				if hit, _ := eng.Search(eng.After(x), func(in ssa.Instruction) bool {
+					u, ok := in.(*ssa.UnOp)
+					return ok && u.Op == token.ARROW // the next receive from the queue
+				}, eng.SearchOpt{Barrier: eng.AnyOf(answerLoop)}); hit != nil {
+					okAns = false
+				}
+			}
+			c.Ob("WORKER-dispatch", eng.FuncName(w)+" batch-answered-before-next-batch", okAns, w.Pos(), "the requests of a batch are answered before the worker takes the next request from the queue")
+		}
+	}
+	c.Expect("WORKER-dispatch", 5)
 	c.Expect("WORKER-hold", 6)
 }
